@@ -461,7 +461,11 @@ pub fn properties() -> Vec<Property> {
       id: "C05",
       rule: "cases = pipeline over well-formed cold/hot sources (harness hot source and the crate's subjects) with unsubscribe / repeated unsubscribe / Using-drop inserted at generated positions and reactions that unsubscribe from inside a callback; non-trivial = the unsubscribe landed strictly between two emission attempts",
       assumptions: vec!["sequential part only in this sub-check; cross-thread part is sub-check conc"],
-      subs: vec![mk_sub("seq", (1500, 30_000), |ctx| seq_strategy(c05_cfg(ctx)), c05_check)],
+      subs: {
+        let mut v = vec![mk_sub("seq", (1500, 30_000), |ctx| seq_strategy(c05_cfg(ctx)), c05_check)];
+        v.extend(super::conc::c05_conc_subs());
+        v
+      },
     },
     Property {
       id: "C06",
